@@ -12,6 +12,9 @@ SOURCES = ["TLVerif.Codec.TL1", "TLVerif.Codec.Val", "TLVerif.Codec.Desc", "TLVe
            "TLVerif.Codec.TL1Canon", "TLVerif.Codec.TL1RoundTrip", "TLVerif.Codec.TL1Normal", "TLVerif.Codec.TL1Example"]
 # known finding L4 (DESIGN §6): CheckLengthSanity(w, n, 4) assumes ≥ 4 bytes per element; arrays whose elements can
 # occupy 0 bytes are written but cannot be read back. Identified by call site; the predicate below is exact.
+# known finding L9: WriteTL1 evaluates later masks/sizes from a `#` field that is itself masked out (and therefore not written);
+# a hand-shaped object holding a non-zero value in a masked-out `#` field does not round-trip. Identified by call site + exact predicate.
+L9_KEY = "L9:masked-out-nat-field-still-used-by-writer:qt_struct.qtpl writeFields"
 L4_KEY = "L4:CheckLengthSanity-min-element-size-4:qt_brackets.qtpl/qt_dict.qtpl"
 
 
@@ -55,6 +58,57 @@ def run(c):
                     c.count("known:L4")
                 else:
                     c.oracle_fail(l, "TL1 round trip fails: bytes written by generated code do not read back exactly / re-encode identically (got %s)" % a[:120], l)
+        # phase 3: hand-shaped values — `#` fields assigned directly on a fresh object
+        hs = []
+        shape = {}
+        for inst, it in sc.items:
+            if inst["kind"] != "struct":
+                continue
+            fields = inst.get("fields") or []
+            stored = [i for i, f in enumerate(fields) if not f.get("isBit")]
+            nats = [(gi, di) for gi, di in enumerate(stored)
+                    if sc.desc["instances"][fields[di]["ty"]]["kind"] == "prim" and sc.desc["instances"][fields[di]["ty"]].get("prim") == "uint32"]
+            if not nats:
+                continue
+            for _ in range(8 if c.thorough else 3):
+                vals = {}
+                for gi, di in nats:
+                    if rng.chance(2, 3):
+                        vals[di] = rng.choice([0, 1, 2, 3, 4, 5, 7, 8, 15])
+                if not vals:
+                    continue
+                go_of = {di: gi for gi, di in nats}
+                line = "codec.hs %s %d %s %s" % (sc.sid, inst["idx"], inst["tlname"], ",".join("%d=%d" % (go_of[di], v) for di, v in sorted(vals.items())))
+                # L9 shape: an assigned non-zero `#` field whose own mask bit is clear
+                l9 = False
+                for di, v in vals.items():
+                    m = fields[di].get("mask")
+                    if v != 0 and m and m["k"] == "field":
+                        if (vals.get(m["v"], 0) >> fields[di]["bit"]) & 1 == 0:
+                            l9 = True
+                    if v != 0 and m and m["k"] == "num" and (m["v"] >> fields[di]["bit"]) & 1 == 0:
+                        l9 = True
+                hs.append(line)
+                shape[line] = l9
+        res3 = c.tie("tl1-handshaped:" + sc.sid, hs, sc.impl, model, prefix=pre)
+        for l, a, _ in res3:
+            if not a.startswith("ok "):
+                continue
+            o = dict(p.split("=", 1) for p in a.split(" ")[1:])
+            w = o.get("w1b")
+            if w == "werr":
+                c.count("handshaped:write-refused")      # sizes disagree with the (zero-length) arrays: the documented write error
+                continue
+            n = 0 if w == "-" else len(w) // 2
+            if o.get("rt") != "%d:%s" % (n, w):
+                ce = certs.get(int(l.split(" ")[2]), {})
+                if shape[l]:
+                    c.oracle_failures.append({"key": L9_KEY, "what": "L9", "input": l})
+                    c.count("known:L9")
+                elif sc.sanity and o.get("rt") == "err-eof" and not ce.get("min4", True):
+                    c.oracle_failures.append({"key": L4_KEY, "what": "L4", "input": l})
+                else:
+                    c.oracle_fail(l, "hand-shaped value does not round-trip through TL1: wrote %s, read back %s" % (w[:80], o.get("rt", "")[:80]), l)
     c.extra["rule"] = ("phase 1: type-directed valid TL1 encodings (+random rest) and single mutations per factory item × bare/boxed, plus fixed "
                        "zero-size-element witnesses; phase 2: every encoding the implementation produced is read back and re-encoded "
-                       "(round-trip oracle); T3 certificates (wf, productive, roundtrip guard) evaluated per factory item; distinct = distinct case line")
+                       "(round-trip oracle); phase 3: hand-shaped values (`#` fields of a fresh object assigned by reflection), written and read back; T3 certificates (wf, productive, roundtrip guard) evaluated per factory item; distinct = distinct case line")
